@@ -96,8 +96,14 @@ Call_Do(s, h, op, cls, d) == [s EXCEPT !.phase = "InCall", !.h = h, !.op = op, !
 
 (* the three parts of a correct Return, separately (Trace_C03 names the one that fails) *)
 Return_Matches(s, h, op) == s.phase = "InCall" /\ s.h = h /\ s.op = op
+(* a reference to an unbound variable is an error of the EVALUATION (the bindings belong to the evaluation context): the ops *)
+(* that only compile may accept the text                                                                                    *)
+DynamicErrorClasses == {"undefinedVariable"}
+CompileOps == {"compileStylesheet", "XalanCompileStylesheet", "XalanCompileStylesheetFromStream", "createXPath", "XalanCreateXPath"}
+
 StatusFits(s, status) ==
   IF s.op \in DeferredOps THEN status = 0
+  ELSE IF s.cls \in DynamicErrorClasses /\ s.op \in CompileOps THEN TRUE
   ELSE CASE Verdict(s.cls, s.d) = "valid"   -> status = 0
          [] Verdict(s.cls, s.d) = "invalid" -> status # 0
          [] OTHER -> TRUE
